@@ -212,7 +212,8 @@ class extract_visitor(NodeVisitor):
                 else:
                     fh.add_name(AssignedName(h.name, body_loc(h.body), np(h), h.type))  # type: ignore[arg-type]
             if h.type:
-                self.visit(h.type)
+                # evaluated when the body has raised: try: E = g() ... except E:
+                self.visit_in_flow(h.type, fh)
             handlers.append(self.visit_in_flow(h.body, fh))
 
         orelse = self.visit_in_flow(node.orelse,
